@@ -47,7 +47,7 @@ def _cfg(wd, kinds: dict, max_clock: int, expires: int, tag="MC_Sticky", base="S
                      overrides={"Kind": "KindDef", "ThreadSets": "SetsDef"})
 
 
-ALL = ["use1", "use2", "use3", "close1", "close2", "delete1", "delete2", "reaper1", "shutdown1"]
+ALL = [f"{k}{i}" for k in ("use", "close", "delete", "reaper", "shutdown") for i in (1, 2, 3)]
 
 
 def _name(kinds: tuple) -> dict:
@@ -73,7 +73,7 @@ def _configs0(ctx: Ctx):
     three = [("use", "use", "delete"), ("use", "close", "reaper"), ("use", "delete", "reaper"),
              ("use", "close", "delete"), ("use", "use", "close"), ("close", "delete", "shutdown")]
     if not ctx.quick:
-        three += [c for c in itertools.combinations_with_replacement(KINDS, 3) if c not in three and "use" in c or "close" in c][:20]
+        three += [c for c in itertools.combinations_with_replacement(KINDS, 3) if c not in three and ("use" in c or "close" in c)][:20]
     for t in three:
         out.append({f"t{i}": k for i, k in enumerate(t)})
     return out
